@@ -315,6 +315,21 @@ local function _sandbox_xpcall(f, handler)
     return _reraise_timeout(_orig_xpcall(f, handler))
 end
 
+-- getmetatable for the sandbox.  All strings of the Lua state share ONE
+-- metatable whose __index is the host string table: handing it out would let
+-- a module replace e.g. ("x"):rep for every later invocation and page.
+-- Strings get a private copy instead.
+local function _sandbox_getmetatable(obj)
+    if _orig_type(obj) == "string" then
+        local copy = {}
+        for k, v in _orig_pairs(_orig_string) do
+            copy[k] = v
+        end
+        return { __index = copy }
+    end
+    return _orig_getmetatable(obj)
+end
+
 -- package is not really used anywhere in the Wiktionary module
 -- codebase, EXCEPT ja-translit uses package.loaders as a test
 -- to check whether something can be loaded..?
@@ -463,7 +478,7 @@ local function _lua_reset_env()
     env["assert"] = _orig_assert
     env["debug"] = new_debug
     env["error"] = _orig_error
-    env["getmetatable"] = _orig_getmetatable
+    env["getmetatable"] = _sandbox_getmetatable
     env["ipairs"] = _orig_ipairs
     env["math"] = _orig_math
     env["_orig_next"] = _orig_next
